@@ -170,6 +170,14 @@ var confirmedHangs int
 
 const maxConfirmedHangs = 3
 
+// slowRetries counts the second attempts (up to 120 s each) of this shard process, whatever their outcome.
+var slowRetries int
+
+const maxSlowRetries = 6
+
+// notRun counts inputs that were skipped (batch cut short): a run with skipped inputs and no violation is not a pass.
+var notRun int
+
 // runBatch runs the inputs in child processes, restarting after every process-fatal input, and judges every result.
 func runBatch(r *report.Run, tg *target, ins []inp) {
 	if len(ins) == 0 {
@@ -200,7 +208,7 @@ func runBatch(r *report.Run, tg *target, ins []inp) {
 		}
 		r.Journal(fmt.Sprintf("child %s from %d", tg.name, start))
 		firstTimeout := 30
-		if confirmedHangs >= maxConfirmedHangs {
+		if confirmedHangs >= maxConfirmedHangs || slowRetries >= maxSlowRetries {
 			firstTimeout = 5 // hangs are already established in this shard: keep moving, unfinished inputs are skipped
 		}
 		cr := spawn(tg, inFile, start, len(ins), firstTimeout)
@@ -235,7 +243,7 @@ func runBatch(r *report.Run, tg *target, ins []inp) {
 		// input `cr.started` was begun and has no result: the process died or was stopped while decoding it
 		i := cr.started
 		res := result{I: i}
-		if cr.timeout && (confirmedHangs >= maxConfirmedHangs || hangsInBatch >= 2) {
+		if cr.timeout && (confirmedHangs >= maxConfirmedHangs || hangsInBatch >= 2 || slowRetries >= maxSlowRetries) {
 			// the time budget for confirming non-termination (120 s each) is used up; the violation is already recorded
 			r.Count("harness.batches_cut_short", 1)
 			r.Note(fmt.Sprintf("target %s: batch cut short after repeated non-termination; %d inputs not run", tg.name, len(ins)-i))
@@ -245,6 +253,7 @@ func runBatch(r *report.Run, tg *target, ins []inp) {
 			r.Count("slow.first_attempt_without_result_after_30s", 1)
 			r.Note(fmt.Sprintf("no result after 30 s at first attempt: %s [%s; %s]", tg.name, ins[i].Class, ins[i].Desc))
 			// again, alone in a fresh child, with 120 s
+			slowRetries++
 			cr2 := spawn(tg, inFile, i, i+1, 120)
 			r.Count("children.spawned", 1)
 			if r2, ok := cr2.results[i]; ok {
@@ -278,6 +287,7 @@ func runBatch(r *report.Run, tg *target, ins []inp) {
 		res := results[i]
 		if res == nil {
 			r.Count("inputs.not_run", 1)
+			notRun++
 			continue
 		}
 		judge(r, tg, in, *res)
@@ -442,5 +452,9 @@ func TestCheck(t *testing.T) {
 			runBatch(r, tg, ins)
 		})
 		r.Count("targets."+tg.name, 1)
+	}
+	if notRun > 0 {
+		// the driver reports a failing shard without violations as inconclusive
+		defer t.Errorf("%d inputs were not run (batches cut short after repeated restarts / non-termination)", notRun)
 	}
 }
